@@ -2,6 +2,7 @@ package main
 
 import (
 	"fmt"
+	"go/types"
 	"sort"
 	"strings"
 
@@ -165,4 +166,59 @@ func findPath(adj map[string]map[string]orderEdge, from, to string) []string {
 		return nil
 	}
 	return rec(from)
+}
+
+// ruleNoInPlaceSliceReuse: slices held in guarded fields are replaced wholesale; readers snapshot the slice header
+// under the lock and iterate after unlocking, so re-slicing / appending to / storing into the loaded backing array
+// races even when every access to the field itself is locked.
+func ruleNoInPlaceSliceReuse(c *Ctx, rule string) {
+	la := c.locks()
+	n := 0
+	for _, fn := range c.SrcFns {
+		allInstrs(fn, func(in ssa.Instruction) {
+			ld, ok := in.(*ssa.UnOp)
+			if !ok {
+				return
+			}
+			fa, ok := ld.X.(*ssa.FieldAddr)
+			if !ok {
+				return
+			}
+			gs := la.specOfFieldAddr(fa)
+			if gs == nil {
+				return
+			}
+			if _, isSlice := ld.Type().Underlying().(*types.Slice); !isSlice {
+				return
+			}
+			if la.isFresh(fa.X) {
+				return
+			}
+			n++
+			bad := ""
+			for _, ref := range *ld.Referrers() {
+				switch x := ref.(type) {
+				case *ssa.Slice:
+					if x.X == ssa.Value(ld) {
+						bad = "re-sliced"
+					}
+				case *ssa.Call:
+					if b, ok := x.Call.Value.(*ssa.Builtin); ok && b.Name() == "append" && len(x.Call.Args) > 0 && x.Call.Args[0] == ssa.Value(ld) {
+						bad = "appended to"
+					}
+				case *ssa.IndexAddr:
+					for _, r2 := range *x.Referrers() {
+						if st, ok := r2.(*ssa.Store); ok && st.Addr == ssa.Value(x) {
+							bad = "element stored in place"
+						}
+					}
+				}
+			}
+			c.ob(rule, fn, "slice in "+gs.Type+"."+fieldName(fa.X.Type(), fa.Field)+" is never modified in place", ld, bad == "",
+				"the loaded slice value is only read / copied / replaced wholesale (snapshot readers iterate it after unlocking) "+bad)
+		})
+	}
+	if n == 0 {
+		c.undecided(rule, nil, "guarded slice fields", nil, "no load of a guarded slice field found")
+	}
 }
